@@ -1,1 +1,377 @@
 // verification harness (compiled into ntpd/src/daemon/spawn/mod.rs under cfg(all(test, pendulum_project_ntpd_rs_verif)))
+//
+// Harness for spec/Spawner.tla, part Pacer (C36): runs the real `spawner_task` around a scripted `Spawner` on tokio's
+// paused clock and drives it with the model's actions
+//   {"t":"Start"}                 spawn the task
+//   {"t":"Tick"}                  one tick (job.tick_ms of virtual time) passes
+//   {"t":"Event","k":kind}        the system sends SourceRegistered | SourceRemoved | Idle
+//   {"t":"Script","d":n,"c":b}    the next try_spawn takes n ticks and leaves the spawner complete (b) or not
+// recording the virtual instants at which try_spawn is entered and left.  After every action the driver lets the task
+// run until it blocks (the model's convention: at one instant the task acts first, then the environment), then
+// observes: is_complete(), remaining ticks of a running try_spawn, events waiting in the channel, ticks since the
+// last attempt ended, and whether an attempt started / ended during this step (with the gap since the previous end).
+//   * mode "replay": compares with the specification after every step of TLC-generated walks;
+//   * mode "record": seeded random sessions (finer time unit, longer tries) logged as ndjson for Trace_SpawnerPacer.
+#![allow(clippy::all, dead_code)]
+
+use super::*;
+use ntp_proto::SourceConfig as PSourceConfig;
+use serde_json::{Value, json};
+use std::sync::{Arc, Mutex};
+use std::time::Duration;
+
+#[path = "/verif/harness/common/util.rs"]
+mod util;
+use util::Rng;
+
+#[derive(Default)]
+struct Shared {
+    complete: bool,
+    next_d: u64,
+    next_c: bool,
+    starts: Vec<u64>, // virtual ms since the task was started
+    ends: Vec<u64>,
+    busy_until: Option<u64>,
+    calls_while_complete: u64,
+}
+
+#[derive(Debug)]
+struct ScriptError;
+impl std::fmt::Display for ScriptError {
+    fn fmt(&self, f: &mut std::fmt::Formatter<'_>) -> std::fmt::Result {
+        f.write_str("scripted spawner error")
+    }
+}
+impl std::error::Error for ScriptError {}
+
+struct Scripted {
+    sh: Arc<Mutex<Shared>>,
+    id: SpawnerId,
+    t0: Instant,
+    tick: Duration,
+}
+
+impl Scripted {
+    fn now_ms(&self) -> u64 {
+        self.t0.elapsed().as_millis() as u64
+    }
+}
+
+impl Spawner for Scripted {
+    type Error = ScriptError;
+
+    async fn try_spawn(&mut self, _action_tx: &mpsc::Sender<SpawnEvent>) -> Result<(), ScriptError> {
+        let now = self.now_ms();
+        let (d, c) = {
+            let mut s = self.sh.lock().unwrap();
+            if s.complete {
+                s.calls_while_complete += 1;
+            }
+            s.starts.push(now);
+            s.busy_until = Some(now + s.next_d * self.tick.as_millis() as u64);
+            (s.next_d, s.next_c)
+        };
+        if d > 0 {
+            tokio::time::sleep(self.tick * d as u32).await;
+        }
+        let now = self.now_ms();
+        let mut s = self.sh.lock().unwrap();
+        s.complete = c;
+        s.ends.push(now);
+        s.busy_until = None;
+        Ok(())
+    }
+
+    fn is_complete(&self) -> bool {
+        self.sh.lock().unwrap().complete
+    }
+
+    async fn handle_source_removed(&mut self, _event: SourceRemovedEvent) -> Result<(), ScriptError> {
+        self.sh.lock().unwrap().complete = false;
+        Ok(())
+    }
+
+    fn get_id(&self) -> SpawnerId {
+        self.id
+    }
+    fn get_addr_description(&self) -> String {
+        "scripted".to_string()
+    }
+    fn get_description(&self) -> &'static str {
+        "scripted"
+    }
+}
+
+async fn settle() {
+    for _ in 0..12 {
+        tokio::task::yield_now().await;
+    }
+}
+
+struct Sut {
+    sh: Arc<Mutex<Shared>>,
+    tick: Duration,
+    w_ticks: u64,
+    t0: Instant,
+    notify_tx: Option<mpsc::Sender<SystemEvent>>,
+    action_rx: Option<mpsc::Receiver<SpawnEvent>>,
+    handle: Option<tokio::task::JoinHandle<Result<(), ScriptError>>>,
+    seen_starts: usize,
+    seen_ends: usize,
+}
+
+impl Sut {
+    fn new(tick_ms: u64) -> Sut {
+        // "one second" as stated by the property, deliberately NOT taken from the code's NETWORK_WAIT_PERIOD
+        const PERIOD_MS: u64 = 1000;
+        let w_ticks = PERIOD_MS / tick_ms;
+        assert_eq!(w_ticks * tick_ms, PERIOD_MS, "tick must divide the network wait period");
+        Sut {
+            sh: Arc::new(Mutex::new(Shared::default())),
+            tick: Duration::from_millis(tick_ms),
+            w_ticks,
+            t0: Instant::now(),
+            notify_tx: None,
+            action_rx: None,
+            handle: None,
+            seen_starts: 0,
+            seen_ends: 0,
+        }
+    }
+
+    fn now_ms(&self) -> u64 {
+        self.t0.elapsed().as_millis() as u64
+    }
+
+    /// (state projection, output, panic)
+    async fn apply(&mut self, act: &Value) -> (Value, Value, Option<String>) {
+        match act["t"].as_str().unwrap() {
+            "Start" => {
+                let (action_tx, action_rx) = mpsc::channel(32);
+                let (notify_tx, notify_rx) = mpsc::channel(32);
+                self.t0 = Instant::now();
+                let sp = Scripted { sh: self.sh.clone(), id: SpawnerId::new(), t0: self.t0, tick: self.tick };
+                self.handle = Some(tokio::spawn(spawner_task(sp, action_tx, notify_rx)));
+                self.notify_tx = Some(notify_tx);
+                self.action_rx = Some(action_rx);
+            }
+            "Tick" => {
+                tokio::time::sleep(self.tick).await;
+            }
+            "Event" => {
+                let ev = match act["k"].as_str().unwrap() {
+                    "Removed" => SystemEvent::source_removed(ClockId::new(), SourceRemovalReason::NetworkIssue),
+                    "Registered" => SystemEvent::SourceRegistered(SourceCreateParameters::Sock(SockSourceCreateParameters {
+                        id: ClockId::new(),
+                        path: PathBuf::from("/nonexistent"),
+                        config: PSourceConfig::default(),
+                        precision: 1e-3,
+                        accuracy: 1e-3,
+                    })),
+                    _ => SystemEvent::Idle,
+                };
+                if let Some(tx) = &self.notify_tx {
+                    if tx.try_send(ev).is_err() {
+                        return (json!({}), json!({}), Some("event channel full or closed".to_string()));
+                    }
+                }
+            }
+            "Script" => {
+                let mut s = self.sh.lock().unwrap();
+                s.next_d = act["d"].as_u64().unwrap();
+                s.next_c = act["c"].as_bool().unwrap();
+            }
+            t => panic!("unknown action {t}"),
+        }
+        settle().await;
+        self.observe()
+    }
+
+    fn observe(&mut self) -> (Value, Value, Option<String>) {
+        let now = self.now_ms();
+        let tick = self.tick.as_millis() as u64;
+        let mut panic = None;
+        let up = self.handle.is_some();
+        if let Some(h) = &self.handle {
+            if h.is_finished() {
+                panic = Some("spawner task ended (panic or error)".to_string());
+            }
+        }
+        let s = self.sh.lock().unwrap();
+        if s.calls_while_complete > 0 {
+            panic = Some("try_spawn called while is_complete()".to_string());
+        }
+        let busy = match s.busy_until {
+            Some(t) if t > now => (t - now + tick - 1) / tick,
+            Some(_) => 0, // must have ended by now: reported through `ended`
+            None => 0,
+        };
+        if let Some(t) = s.busy_until {
+            if t <= now {
+                panic = Some("try_spawn did not return at its scripted end".to_string());
+            }
+        }
+        let qlen = self.notify_tx.as_ref().map(|tx| tx.max_capacity() - tx.capacity()).unwrap_or(0);
+        let new_starts = &s.starts[self.seen_starts..];
+        let new_ends = &s.ends[self.seen_ends..];
+        // gap between the start seen in this step and the end of the previous attempt, in ticks, capped at W
+        let mut gap = 0;
+        let mut times_ok = true;
+        if let Some(&st) = new_starts.first() {
+            // attempts are sequential: the previous attempt (index - 1) has ended before this one starts
+            let idx = self.seen_starts;
+            let prev_end = if idx == 0 { None } else { s.ends.get(idx - 1).copied() };
+            gap = match prev_end {
+                None if idx == 0 => self.w_ticks,
+                None => 0, // previous attempt has not even ended
+                Some(e) if e > st => 0,
+                Some(e) => std::cmp::min((st - e) / tick, self.w_ticks), // floor: 999 ms is below the period
+            };
+            if st != now {
+                times_ok = false; // attempts start only at the instant of the step that caused them
+            }
+        }
+        if new_starts.len() > 1 || new_ends.len() > 1 {
+            times_ok = false;
+        }
+        if let Some(&e) = new_ends.first() {
+            if e != now {
+                times_ok = false;
+            }
+        }
+        let since_end = if busy > 0 {
+            0
+        } else {
+            match s.ends.last() {
+                None => self.w_ticks,
+                Some(&e) => std::cmp::min((now - e) / tick, self.w_ticks),
+            }
+        };
+        let st = json!({"up": up, "complete": s.complete, "busy": busy, "qlen": qlen, "sinceEnd": since_end});
+        let out = json!({"started": !new_starts.is_empty(), "gap": gap, "ended": !new_ends.is_empty(), "times_ok": times_ok,
+                          "start_ms": new_starts.first().map(|x| *x as i64).unwrap_or(-1), "end_ms": new_ends.first().map(|x| *x as i64).unwrap_or(-1), "now_ms": now});
+        self.seen_starts = s.starts.len();
+        self.seen_ends = s.ends.len();
+        (st, out, panic)
+    }
+}
+
+fn compare(exp_obs: &Value, exp_out: &Value, st: &Value, out: &Value, panic: &Option<String>) -> Vec<String> {
+    let mut d = vec![];
+    if panic.is_some() {
+        d.push("panic".to_string());
+        return d;
+    }
+    for k in ["up", "complete", "busy", "qlen", "sinceEnd"] {
+        if exp_obs[k] != st[k] {
+            d.push(k.to_string());
+        }
+    }
+    for k in ["started", "gap", "ended"] {
+        if exp_out[k] != out[k] {
+            d.push(format!("out.{k}"));
+        }
+    }
+    if out["times_ok"] != json!(true) {
+        d.push("out.started".to_string());
+    }
+    d.sort();
+    d.dedup();
+    d
+}
+
+fn runtime() -> tokio::runtime::Runtime {
+    tokio::runtime::Builder::new_current_thread().enable_all().start_paused(true).build().unwrap()
+}
+
+fn replay(job: &Value) {
+    let walks = util::read_ndjson(job["input"].as_str().unwrap());
+    let mut out = util::NdjsonOut::create(job["output"].as_str().unwrap());
+    let tick_ms = job["cfg"]["tick_ms"].as_u64().unwrap();
+    for w in walks {
+        let steps = w["walk"].as_array().unwrap().clone();
+        let res = util::catch(|| {
+            runtime().block_on(async {
+                let mut sut = Sut::new(tick_ms);
+                let mut fail = Value::Null;
+                let mut run = 0;
+                for (n, st) in steps.iter().enumerate() {
+                    let (obs_st, obs_out, panic) = sut.apply(&st["act"]).await;
+                    run = n + 1;
+                    let d = compare(&st["obs"], &st["out"], &obs_st, &obs_out, &panic);
+                    if !d.is_empty() {
+                        fail = json!({"step": n, "fields": d, "observed": {"st": obs_st, "out": obs_out}, "panic": panic});
+                        break;
+                    }
+                }
+                (run, fail)
+            })
+        });
+        match res {
+            Ok((run, fail)) => out.put(&json!({"id": w["id"], "steps_run": run, "fail": fail})),
+            Err(p) => out.put(&json!({"id": w["id"], "steps_run": 1, "fail": {"step": 0, "fields": ["panic"], "observed": null, "panic": p}})),
+        }
+    }
+    out.finish();
+}
+
+fn record(job: &Value) {
+    let mut out = util::NdjsonOut::create(job["output"].as_str().unwrap());
+    let seed = job["seed"].as_u64().unwrap_or(0);
+    let sessions = job["sessions"].as_u64().unwrap_or(10);
+    let steps = job["steps"].as_u64().unwrap_or(100);
+    let tick_ms = job["cfg"]["tick_ms"].as_u64().unwrap();
+    let max_d = job["cfg"]["max_d"].as_u64().unwrap();
+    let qmax = job["cfg"]["qmax"].as_u64().unwrap() as usize;
+    let mut rng = Rng::new(seed ^ 0xacce);
+    for _ in 0..sessions {
+        let events = runtime().block_on(async {
+            let mut evs = vec![json!({"ev": "reset"})];
+            let mut sut = Sut::new(tick_ms);
+            let mut started = false;
+            for _ in 0..steps {
+                let r = rng.below(100);
+                let act = if !started {
+                    if rng.chance(1, 2) {
+                        json!({"t": "Script", "d": rng.below(max_d + 1), "c": rng.chance(1, 2)})
+                    } else {
+                        started = true;
+                        json!({"t": "Start"})
+                    }
+                } else if r < 55 {
+                    json!({"t": "Tick"})
+                } else if r < 80 {
+                    let qlen = sut.notify_tx.as_ref().map(|tx| tx.max_capacity() - tx.capacity()).unwrap_or(0);
+                    if qlen >= qmax {
+                        json!({"t": "Tick"})
+                    } else {
+                        json!({"t": "Event", "k": *rng.pick(&["Removed", "Removed", "Registered", "Idle"])})
+                    }
+                } else {
+                    let d = if rng.chance(1, 3) { 0 } else { rng.below(max_d + 1) };
+                    json!({"t": "Script", "d": d, "c": rng.chance(1, 2)})
+                };
+                let (st, o, panic) = sut.apply(&act).await;
+                evs.push(json!({"ev": "step", "act": act, "st": st, "out": o, "panic": panic.clone().unwrap_or_default()}));
+                if panic.is_some() {
+                    break;
+                }
+            }
+            evs
+        });
+        for e in &events {
+            out.put(e);
+        }
+    }
+    out.finish();
+}
+
+#[test]
+fn verif_pacer() {
+    let job = util::job();
+    match job["mode"].as_str().unwrap() {
+        "replay" => replay(&job),
+        "record" => record(&job),
+        m => panic!("unknown mode {m}"),
+    }
+}
